@@ -568,7 +568,7 @@ def gen_all_algos_plan(rng, tier="quick", stateful=False, random_algos=True):
         if rng.random() < 0.2:
             st.append({"a": "Not", "algo": {"a": "RunOnDate", "dates": [dates[rng.randrange(len(dates))]]}})
         # selection
-        sk = rng.choice(["SelectAll", "SelectThese", "SelectHasData", "SelectMomentum", "SelectN_stat", "SelectWhere", "SelectRandomly" if random_algos else "SelectAll", "SelectRegex", "SelectTypes", "SetStat"])
+        sk = rng.choice(["SelectAll", "SelectThese", "SelectHasData", "SelectMomentum", "SelectMomentum", "SelectN_stat", "SelectN_stat", "SelectWhere", "SelectWhere", "SelectRandomly" if random_algos else "SelectAll", "SelectRegex", "SelectTypes", "SetStat", "SetStat", "SetStat"])
         if sk == "SelectAll":
             st.append({"a": "SelectAll"})
         elif sk == "SelectThese":
@@ -592,7 +592,7 @@ def gen_all_algos_plan(rng, tier="quick", stateful=False, random_algos=True):
             st += [{"a": "SelectAll"}]
         elif sk == "SetStat":
             nm = "stat%d" % len(extra)
-            srows = sorted(rng.sample(dates, rng.randint(max(2, len(dates) // 4), len(dates)))) if rng.random() < 0.5 else None
+            srows = sorted(rng.sample(dates, rng.randint(max(2, len(dates) // 4), len(dates)))) if rng.random() < 0.7 else None
             extra[nm] = _frame(names, [[round(rng.gauss(0, 1), 4) for _ in names] for _ in (srows or dates)], rows=srows)
             st += [{"a": "SelectAll"}, {"a": "SetStat", "args": [nm], "kw": {"lag": {"days": rng.choice([0, 0, 1])}}}, {"a": "SelectN", "args": [rng.randint(1, len(names))], "kw": {"filter_selected": True}}]
         if rng.random() < 0.2:
